@@ -55,15 +55,27 @@ func (s *scriptIn) Close() error {
 type recOut struct {
 	chunks []string
 	closed bool
+	gate   *vrt.Chan[struct{}] // non-nil: every Write blocks until Close (a peer that does not drain)
 }
 
 func (r *recOut) Write(p []byte) (int, error) {
 	vrt.SchedPoint("out.Write")
+	if r.gate != nil {
+		r.gate.Recv()
+		return 0, io.ErrClosedPipe
+	}
 	vrt.Event("out-write", "out", 0)
 	r.chunks = append(r.chunks, string(p))
 	return len(p), nil
 }
-func (r *recOut) Close() error { vrt.Event("out-close", "out", 0); r.closed = true; return nil }
+func (r *recOut) Close() error {
+	vrt.Event("out-close", "out", 0)
+	if r.gate != nil && !r.closed {
+		r.gate.Close()
+	}
+	r.closed = true
+	return nil
+}
 
 // ---- per-execution observation ----
 type opRec struct {
@@ -104,6 +116,9 @@ type shape struct {
 	reads, writes int  // operations of R and W
 	reader2       bool // a second reader thread
 	lateR, lateW  bool // operations started by the closer after Close returned
+	starve        bool // the source never delivers: the underlying Read stays blocked until Close
+	writer2       bool // a second writer thread
+	blockOut      bool // the underlying Write blocks until Close
 }
 
 func scenario(name string, sh shape) *vrt.Scenario {
@@ -113,9 +128,14 @@ func scenario(name string, sh shape) *vrt.Scenario {
 		Body: func() {
 			in := newIn()
 			rec = &recOut{}
-			in.feed("ab") // available at once; "cd" arrives later from the source thread
+			if sh.blockOut {
+				rec.gate = vrt.NewChan[struct{}](0)
+			}
+			if !sh.starve {
+				in.feed("ab") // available at once; "cd" arrives later from the source thread
+			}
 			conn := fakenet.NewConn("c", in, rec)
-			if sh.reads > 0 || sh.reader2 {
+			if (sh.reads > 0 || sh.reader2) && !sh.starve {
 				vrt.Go("src", func() { in.feed("cd") })
 			}
 			if sh.reads > 0 {
@@ -135,6 +155,9 @@ func scenario(name string, sh shape) *vrt.Scenario {
 						doWrite(conn, "W", d)
 					}
 				})
+			}
+			if sh.writer2 {
+				vrt.Go("W2", func() { doWrite(conn, "W2", "q") })
 			}
 			vrt.Go("C", func() {
 				conn.Close()
@@ -255,8 +278,12 @@ func main() {
 		scenario("writes2+close+lateWrite", shape{writes: 2, lateW: true}),
 		scenario("read+write+close", shape{reads: 1, writes: 1}),
 		scenario("tworeaders+close", shape{reads: 1, reader2: true}),
+		// the underlying stream call is blocked for good when the second caller and Close arrive
+		scenario("tworeaders-starved+close", shape{reads: 1, reader2: true, starve: true}),
+		scenario("twowriters-blocked-sink+close", shape{writes: 1, writer2: true, blockOut: true}),
+		scenario("reader+writer-both-blocked+close", shape{reads: 1, writes: 1, starve: true, blockOut: true}),
 	}
 	smode.Main(c, scs, 1, 2,
-		"Scenarios on the real x/fakenet (rewritten onto vrt): a source thread feeding \"ab\",\"cd\" into the in side, reader R (2 reads), optional second reader, writer W (2 writes), closer C, optional late user started after Close returned (1 read, 1 write).",
+		"Scenarios on the real x/fakenet (rewritten onto vrt): a source thread feeding \"ab\",\"cd\" into the in side, reader R (2 reads), optional second reader, writer W (2 writes), closer C, optional late user started after Close returned (1 read, 1 write); three scenarios in which the underlying Read never gets data and/or the underlying Write never completes until Close (two readers, two writers, reader+writer).",
 		[]string{"oracle streammodel: reads return a prefix of the source in order; the underlying writer sees whole write buffers in issue order including every acknowledged write; operations started after Close returned yield (0, io.EOF); no thread remains blocked"})
 }
